@@ -1,5 +1,6 @@
 import Norad.Lemmas.C12
 import Norad.Lemmas.GlifTables
+import Norad.Lemmas.JudgeLink
 import Norad.Generated.GlifParser
 import Norad.Lemmas.C02
 import Norad.Lemmas.GlifGen
@@ -608,8 +609,14 @@ theorem attr_order_irrelevant (s : PS) {l₁ l₂ : List Attr} (hp : l₁.Perm l
 --   documents `parseGlif_attr_order_irrelevant` (section "attribute order, image/component and whole documents").
 -- Third phase: `legal_accepted` (end of this file) for the generative grammar `render f d` of `Lemmas/GlifGen.lean`: format 2,
 --   items in ANY order, comments anywhere, any attribute order (`EvsPerm`), any spelling that reads back.
--- OPEN: the link from the table-driven specification `Spec.judge rd (d : Spec.Doc) = ([], false)` to the hypotheses of
---   `legal_accepted` (per-element: `judge`-clean attribute list ⇒ a permutation of the canonical list of a valid object),
+-- Last phase, element level (`Lemmas/JudgeLink.lean`, audited): `elemCheck_clean` unpacks `Spec.elemCheck rd ver e = ([], false)`,
+--   `valueCheck_clean` turns each clean value check into the model's terms, `anchor_/guideline_/point_/component_/image_/
+--   advance_/unicode_clean_accepted` show that the model's attribute loop then succeeds for ANY attribute order (under
+--   `ReadsNumerals rd`: Rust reads every plain decimal numeral; identifier not seen before), and `clean_element_step` packages
+--   them: a judge-clean self-closing element is accepted in any parser state at its level.
+-- OPEN: the document level of that link — a fold over `Spec.Doc` items with the global clauses of `Spec.judge` (once-only counts,
+--   `hasDup (docIdents d)`, `contourCheck`'s `legalB` against the parsed points, the `glyph` start tag, object libs) so that
+--   `Spec.judge rd d = ([], false)` alone gives `parseGlif rd (Spec.flatten d) = .ok _`;
 --   and format 1.  Earlier note, kept:
 -- (was OPEN) legal_accepted for the whole grammar `Spec.flatten d` (any element order, comments anywhere, both versions).
 --   Kernel-checked instead (second phase, `Lemmas/C02.lean`, listed in the audit): acceptance element family by element
@@ -1178,5 +1185,17 @@ theorem source_defaults_match :
   decide +kernel
 
 end SourceTie
+
+/-! ### the specification's element check and the model (non-vacuity of the link) -/
+
+-- `ReadsNumerals` is satisfiable, a clean element exists, and `clean_element_step` applies to it
+example : ReadsNumerals (fun _ => some 0) := fun _ _ => ⟨0, rfl⟩
+example :
+    stepContinues (step (fun _ => some 0) { g := { name := ['a'] }, ver := 2 }
+      (.empty sAnchor (some [(['y'], ['2']), ("name".toList, ['t']), (['x'], ['1'])]))) = true :=
+  (clean_element_step (rd := fun _ => some 0) (fun _ _ => ⟨0, rfl⟩)
+    (s := { g := { name := ['a'] }, ver := 2 })
+    (e := { name := sAnchor, attrs := some [(['y'], ['2']), ("name".toList, ['t']), (['x'], ['1'])] })
+    (by decide +kernel) (by intro as v _ _ h; cases h)).2.2.1 rfl rfl
 
 end Glif
